@@ -186,6 +186,12 @@ func (it *IndexIterator) Seek(key []byte) {
 		return
 	}
 
+	// 迭代器只向前移动: 目标在迭代方向上不超过当前位置时保持不动
+	// 否则未耗尽的分片迭代器会各自回退, 而已耗尽的分片迭代器不再参与, 同一操作序列的结果将随分片数量变化
+	if c := bytes.Compare(key, it.Key()); (!it.heap.reverse && c <= 0) || (it.heap.reverse && c >= 0) {
+		return
+	}
+
 	oldItems := it.heap.items
 	it.heap.items = nil
 	for _, item := range oldItems {
